@@ -229,6 +229,43 @@ func c07Controller(ctx *Ctx) {
 	if rose {
 		ctx.Nontrivial("controller|" + hash64(jsonStr(sc.Fan)+jsonStr(sc.Map)))
 	}
+	// second form: the same prior state (fan reporting a given PWM, controller fresh), every curve value: the value the
+	// fan holds after one cycle must be non-decreasing in the curve value. Start values: keys and outputs of the map.
+	m := sc.Map.build()
+	if m == nil || sc.Fan.Kind == "cmd" || r.Intn(3) > 0 {
+		return
+	}
+	cand := map[int]bool{r.Intn(256): true}
+	for k, v := range m {
+		if len(cand) < 6 {
+			cand[k], cand[v] = true, true
+		}
+	}
+	for d0 := range cand {
+		prevW, prevC := -1, -1
+		for c := 0; c <= 255; c++ {
+			one := *sc
+			one.InitPwm = d0
+			one.Steps = []CycleStep{{Curve: c, DtMs: 200, Polls: 0}}
+			written := -1
+			runScenario(ctx, &one, func(w *World, rec *CycleRecord) bool {
+				ctx.Eval(1)
+				if rec.Panic == "" && rec.Err == nil {
+					written = rec.DevPwmAfter
+				}
+				return true
+			})
+			if written < 0 {
+				break
+			}
+			if written < prevW {
+				ctx.Violation("controller:written-decreases-with-curve-from-same-state:"+sc.Fan.Kind+":"+sc.Map.Kind,
+					fmt.Sprintf("fan reporting %d before the cycle: curve %d -> fan at %d, curve %d -> fan at %d; map %v", d0, prevC, prevW, c, written, m), map[string]interface{}{"scenario": sc, "fanReports": d0, "curve1": prevC, "curve2": c})
+				return
+			}
+			prevW, prevC = written, c
+		}
+	}
 }
 
 func init() {
